@@ -403,6 +403,14 @@ def run(ctx):
             R.both(fname, tuple(float(a) for a in args), 'error', 'domain',
                    (fname, 'outside', args), formula=True,
                    tags=('outside-domain',))
+        # integer powers whose exact value has millions of digits: the answer
+        # (#NUM!) must come at once
+        for args in ((10, 10 ** 10), (7, 10 ** 9), (-3, 10 ** 9 + 1),
+                     (2, 10 ** 12)):
+            got = monitors.call_with_deadline(R.F['POWER'], args, 5)
+            R.judge('POWER', args, 'error', got, 'domain',
+                    ('POWER', 'giant-integer', args), 0, 'lib',
+                    ('outside-domain',))
     R.flush()
     ctx.data['functions'] = sorted(R.seen)
     rec.report()
